@@ -414,6 +414,8 @@ func runStore(t *testing.T, tape *verifsim.Tape, prop, tier string, keepLog bool
 		return runCrash(t, tape, prop, tier, keepLog)
 	case "C09":
 		return runPush(t, tape, prop, tier, keepLog)
+	case "C10":
+		return runGGUFAPI(t, tape, prop, tier, keepLog)
 	}
 	return verifsim.Result{HarnessErr: "store harness does not serve " + prop}
 }
@@ -431,11 +433,15 @@ func TestVerifStore(t *testing.T) {
 			"C03": "one evaluation = one simulated execution: 1-3 published models (1-4 layers of 0-200 KB, shared layers, optional tag update), 1-7 phases of 1-2 concurrent POST /api/pull attempts with tape-drawn interrupts, a tape-drawn subset of 17 network fault kinds at a tape-drawn rate, part size 1-64 KB, then up to three fault-free retries per model; non-trivial = at least two tasks runnable at some step and at least one network request; distinct = different hash of the (task,label,time) decision sequence",
 			"C12": "one case = a tape-drawn prior history of 0-5 fault-free API operations (the C04 generator: shared layers, case variants, restarts) followed by one target operation (pull of a new / updated / layer-sharing model in 256 B-4 KB parts, create from files, create FROM, re-create, copy, delete); the case is executed once uninterrupted to count its crash points (every mutating file-system call of the operation, plus a torn variant of every data write) and then once per crash point (all of them up to 150 quick / 600 thorough, otherwise a stratified tape-drawn sample): freeze the world there, unwind, restart through the repository's own start-up sequence, audit, repeat the operation, restart again, compare with the uninterrupted run; one evaluation = one such execution; non-trivial = the case has at least one crash point; distinct = different hash of the decision sequence (every crash point yields a different one)",
 			"C09": "legacy push stage: one evaluation = one simulated execution of 1-3 phases of 1-2 concurrent POST /api/push requests for 1-3 locally created models (shared layers, upload part size 64 B-16 KB so that blobs are uploaded in several PATCH/direct-PUT parts) against the simulated registry with tape-drawn upload faults (rejected parts, lost upload location, rejected commit, rejected manifest PUT, 5xx/429/connection errors, auth) and client interrupts; the simulated registry checks at every manifest PUT that every named layer has been committed with matching content",
+			"C10": "API stage: one evaluation = one simulated execution in which 1-4 fault-derivatives of a valid GGUF file (truncation at a tape-drawn offset, flipped byte, 32/64-bit fields overwritten with boundary values, header counts overwritten) are uploaded with POST /api/blobs and used by POST /api/create, or written over the stored model file of a healthy model before POST /api/show, GET /api/tags and POST /api/create FROM; every request must be answered, no goroutine may panic (create decodes outside gin's recovery), and afterwards the server still lists models and creates a healthy one",
 			"C04": "one evaluation = one simulated execution of a tape-drawn history of 5-80 API operations (blob upload, create from files, create FROM, copy, delete, pull from a fault-free simulated registry, restart with start-up prune) over a pool of 60 names that includes case variants, several tags, hosts and namespaces, with layers shared through identical content, FROM and copy; the statement is evaluated after every operation through GET /api/tags, POST /api/show and a digest/size walk of the store; non-trivial = at least two operations succeeded and two models coexisted; distinct = different hash of the decision sequence",
 		},
 		NonTrivial: func(prop string, r *verifsim.Result) bool {
 			if prop == "C04" {
 				return r.Info["op_ok"] >= 2 && r.Probes["two_models_coexist"] > 0
+			}
+			if prop == "C10" {
+				return r.Probes["keeps_serving"] > 0
 			}
 			if prop == "C12" {
 				return r.Info["enum_points_run"] > 0
